@@ -115,6 +115,29 @@ def rw_get_unchecked(text):
     return ''.join(out), count
 
 
+def rw_for_by_ref(text):
+    """R5: `for PAT in X.by_ref() { B }` -> `loop { match X.next() { Some(PAT) => { B } None => break } }`
+    (the reference desugaring of `for`, with `<&mut I as Iterator>::next` = `(**self).next()` and `by_ref` = `self`)"""
+    count = 0
+    rx = re.compile(r'\bfor\s+(.+?)\s+in\s+([A-Za-z_][A-Za-z0-9_\.]*)\s*\.\s*by_ref\s*\(\s*\)\s*\{')
+    while True:
+        m = rx.search(text)
+        if not m or '\n' in m.group(0):
+            break
+        # matching close brace of the loop body
+        d, j = 1, m.end()
+        while j < len(text) and d:
+            if text[j] == '{':
+                d += 1
+            elif text[j] == '}':
+                d -= 1
+            j += 1
+        head = 'loop { match %s.next() { Some(%s) => {' % (m.group(2), m.group(1))
+        text = text[:m.start()] + head + text[m.end():j] + ' None => break } }' + text[j:]
+        count += 1
+    return text, count
+
+
 def rw_underscore_params(sig):
     """R3: parameter pattern `_: T` -> `_pN: T`"""
     n = [0]
@@ -130,7 +153,7 @@ REWRITES_DOC = {
     'R3': 'parameter pattern `_: T` -> `_pN: T` (Verus rejects `_` patterns)',
     'R7': 'generic parameter instantiated at the one type the unit models: `T: Index<usize, Output = u64>` of bits::read_int/write_int at Vec<u64>; `P: AsRef<Path>` at the model path type',
     'R10': 'alpha-renaming of the method-level generic parameter of the Serialize methods (T -> W, the name SelectSupport already uses): this Verus matches trait and impl method generics by name',
-    'R5': '`for p in E { B }` -> `let mut __it = E; loop { match __it.next() { Some(p) => { B } None => break } }` (reference desugaring)',
+    'R5': '`for p in X.by_ref() { B }` -> `loop { match X.next() { Some(p) => { B } None => break } }`: the reference desugaring of `for` (IntoIterator::into_iter is the identity on iterators), with `Iterator::by_ref` = `self` and `<&mut I as Iterator>::next` = `(**self).next()` (std source)',
     'R8': 'struct fields widened to pub inside the unit',
     'R1': 'doc comments / #[inline] / derives dropped',
 }
@@ -249,6 +272,11 @@ def weave_fn(src, container, name, nth, opts, subs, mode, sig_only=False):
     text, k = rw_get_unchecked(raw)
     if k:
         rewrites['R2'] = k
+    if any(kind == 'desugar_by_ref' for kind, arg, lines in subs):
+        text, k = rw_for_by_ref(text)
+        if not k:
+            raise Undecided('anchor lost: no `for .. in X.by_ref()` loop in %s::%s' % (container, name))
+        rewrites['R5'] = k
     hdr_len = None
     b = Body(text)
     bo = b.body_open() if not sig_only else -1
@@ -311,7 +339,7 @@ def weave_fn(src, container, name, nth, opts, subs, mode, sig_only=False):
     # collect sub-directives
     for kind, arg, lines in subs:
         body_text = '\n'.join(lines)
-        if kind in ('inst', 'rename_generic'):
+        if kind in ('inst', 'rename_generic', 'desugar_by_ref'):
             continue
         if kind == 'attr':
             if not sig_only:
